@@ -309,9 +309,19 @@ def regex_sub(interp, rx, repl, text, fr):
     if not isinstance(repl, str):
         raise Unsupported("regex sub with a symbolic replacement")
     tree = list(sre_parse.parse(rx.pattern, rx.flags))
+    alternation = False
+    if len(tree) == 1 and tree[0][0] == sre_c.SUBPATTERN:
+        tree = list(tree[0][1][3])          # ( ... ): the group itself does not matter for sub with a constant replacement
+    if len(tree) == 1 and tree[0][0] == sre_c.BRANCH:
+        # `[class]+ | other`: the FIRST alternative is tried first at every position, so every character of the class is replaced whatever
+        # the other alternatives are; they may replace further characters (sound facts below are restricted accordingly)
+        alternation = True
+        tree = list(tree[0][1][1][0])
     if not (len(tree) == 1 and tree[0][0] in (sre_c.MAX_REPEAT, sre_c.MIN_REPEAT) and tree[0][1][0] >= 1
             and len(list(tree[0][1][2])) == 1 and list(tree[0][1][2])[0][0] == sre_c.IN):
-        raise Unsupported(f"regex sub for pattern {rx.pattern!r} (only `[class]+` is modelled)")
+        raise Unsupported(f"regex sub for pattern {rx.pattern!r} (only `[class]+` and `[class]+|...` are modelled)")
+    if alternation and not repl:
+        raise Unsupported("regex sub of an alternation with an empty replacement")
     codes = _class_codes(list(tree[0][1][2])[0][1], bool(rx.flags & re.I))
     kept = _chars_re(set(range(128)) - codes)
     out = z3.String(fresh_name("sub"))
@@ -321,9 +331,14 @@ def regex_sub(interp, rx, repl, text, fr):
     # alphabet bookkeeping: every substring / piece of `out` is over the same characters (sound; helps the string solvers)
     alpha = (set(range(128)) - codes) | {ord(ch) for ch in repl}
     interp.__dict__.setdefault("alphabets", {})[out.sexpr()] = alpha
-    run.assume(z3.Implies(z3.InRe(text, z3.Star(kept)), out == text))
+    if not alternation:
+        run.assume(z3.Implies(z3.InRe(text, z3.Star(kept)), out == text))
     run.assume(z3.Length(out) <= z3.Length(text) * max(1, len(repl)))
     run.assume((z3.Length(out) == 0) == (z3.Length(text) == 0) if repl else z3.Length(out) <= z3.Length(text))
+    if alternation:
+        interp.trusted.add("re: Pattern.sub(r, s) for `[class]+|other`: every character of the class is replaced (first alternative wins at every position); the result is made of "
+                           "characters of s outside the class and copies of r")
+        return out
     interp.trusted.add("re: Pattern.sub(r, s) for a `[class]+` pattern: the result is made of the characters of s outside the class and copies of r, "
                        "equals s when s has no character of the class, and is empty only if s is (r non-empty)")
     return out
